@@ -241,9 +241,11 @@ class PingQueue:
         self._loop = loop
         self._protocol = protocol
         self._pending_contacts: typing.Dict['KademliaPeer', float] = {}
+        self._to_confirm: typing.Dict['KademliaPeer', float] = {}
         self._process_task: asyncio.Task = None
         self._running = False
         self._running_pings: typing.Set[asyncio.Task] = set()
+        self._pinging: typing.Set['KademliaPeer'] = set()
         self._default_delay = constants.MAYBE_PING_DELAY
 
     @property
@@ -252,19 +254,26 @@ class PingQueue:
 
     @property
     def busy(self):
-        return self._running and (any(self._running_pings) or any(self._pending_contacts))
+        return self._running and (any(self._running_pings) or any(self._pending_contacts) or any(self._to_confirm))
 
-    def enqueue_maybe_ping(self, *peers: 'KademliaPeer', delay: typing.Optional[float] = None):
+    def enqueue_maybe_ping(self, *peers: 'KademliaPeer', delay: typing.Optional[float] = None,
+                           confirm: bool = False):
         delay = delay if delay is not None else self._default_delay
         now = self._loop.time()
         for peer in peers:
+            if confirm and delay < self._default_delay:
+                # a pong that came back through the pinhole the contact's own request opened in its NAT proves nothing:
+                # it has to answer once more after the usual delay (which exists to let such a pinhole expire)
+                self._to_confirm.setdefault(peer, now + self._default_delay)
+            if peer in self._pinging:
+                continue  # the verdict on it is a few seconds away: no second ping on top of the one in flight
             if peer not in self._pending_contacts or now + delay < self._pending_contacts[peer]:
                 self._pending_contacts[peer] = delay + now
 
-    def maybe_ping(self, peer: 'KademliaPeer'):
+    def maybe_ping(self, peer: 'KademliaPeer', force: bool = False):
         async def ping_task():
             try:
-                if self._protocol.peer_manager.peer_is_good(peer):
+                if not force and self._protocol.peer_manager.peer_is_good(peer):
                     if not self._protocol.routing_table.get_peer(peer.node_id):
                         self._protocol.add_peer(peer)
                     return
@@ -272,7 +281,9 @@ class PingQueue:
             except (asyncio.TimeoutError, RemoteException):
                 pass
 
+        self._pinging.add(peer)
         task = self._loop.create_task(ping_task())
+        task.add_done_callback(lambda _: self._pinging.discard(peer))  # also when cancelled by stop()
         task.add_done_callback(lambda _: None if task not in self._running_pings else self._running_pings.remove(task))
         self._running_pings.add(task)
 
@@ -285,6 +296,12 @@ class PingQueue:
                     del self._pending_contacts[peer]
                     self.maybe_ping(peer)
                     break
+            else:
+                for peer in list(self._to_confirm.keys()):
+                    if self._to_confirm[peer] <= now:
+                        del self._to_confirm[peer]
+                        self.maybe_ping(peer, force=True)  # a failure after a reply rates it bad: send_request drops it
+                        break
             await asyncio.sleep(1)
 
     def start(self):
@@ -472,7 +489,8 @@ class KademliaProtocol(DatagramProtocol):
             if is_good is None:
                 # nothing is gained by waiting five minutes to verify a contact that its bucket has room for
                 bucket = self.routing_table.buckets[self.routing_table._kbucket_index(peer.node_id)]
-                self.ping_queue.enqueue_maybe_ping(peer, delay=0 if len(bucket) < bucket.capacity else None)
+                self.ping_queue.enqueue_maybe_ping(peer, delay=0 if len(bucket) < bucket.capacity else None,
+                                                   confirm=True)
             # only add a requesting contact to the routing table if it has replied to one of our requests
             elif is_good is True:
                 self.add_peer(peer)
